@@ -259,7 +259,7 @@ func (c *Ctx) keyD(v ssa.Value, e *env, depth int, seen map[ssa.Value]bool) stri
 		return k(x.X) + "[" + lo + ":" + hi + "]"
 	case *ssa.Phi:
 		if seen[x] {
-			return "phi#" + x.Name()
+			return "phi#"
 		}
 		seen[x] = true
 		var parts []string
